@@ -6,8 +6,13 @@ Obligations:
   te-set            (smt)  the accepted Transfer-Encoding set is what the RFC decision function assumes
   framing-table     (symx) real validate_headers + expected_http_body_size vs an independent RFC 9112 §6.3
                            decision function over solver-enumerated header lists
-  e2e-request       (symx) real HttpLayer: bytes forwarded upstream parse (reference parser) to exactly the
-                           flows seen in the request hook
+  e2e-request       (symx) real HttpLayer(regular, validate_inbound_headers=True): a solver-built client stream
+                           (head lines, body encoding, chunk split, pipelining, addon edit in the request hook);
+                           the bytes written to the server parse (reference parser) to exactly the flows seen in
+                           the `request` hook, nothing left over; ambiguous heads are rejected and nothing after
+                           them is processed; where the reference reads the input, mitmproxy read the same messages
+  e2e-response      (symx) same for a solver-built server reply relayed to the client, judged in the context of
+                           the request method (HEAD) and status (1xx/204/304), addon edit in the response hook
 """
 import re
 
@@ -19,10 +24,14 @@ from vf.refs import http1ref
 
 LEVEL = "model_checking"
 ASSUMPTIONS = [
-    "header values reaching the validator contain no CR/LF (h11 removes line terminators before validation)",
+    "regex obligations: header names/values reaching the validator never END in LF (h11 splits lines at LF and read._read_headers strips values); "
+    "values may contain CR LF SP inside (kept obs-fold) - the end-to-end obligations feed such values through the real parser",
+    "e2e: the server answers every forwarded request (fixed 200); a reply that is not self-delimiting is terminated by the server closing; hooks complete immediately",
+    "e2e: addon edits are the documented ones (message.content = ..., headers.add, del headers[...]); a violation that only appears with an edit is keyed after-edit/<edit>",
     "oracle = vf/refs/http1ref.py, an independent RFC 9112 parser / framing decision function",
 ]
-OUTSIDE = ["obs-fold and bare-LF handling inside h11 beyond the menu entries", "HTTP/0.9", "header lists longer than the bound"]
+OUTSIDE = ["obs-fold and bare-LF handling inside h11 beyond the menu entries", "HTTP/0.9", "header lists longer than the bound",
+           "e2e: bodies other than the menu's (<= 11 bytes), CONNECT/upgrade, upstream/transparent/reverse modes, segmentation (C02), HTTP/2-3 translation (C06)"]
 ENCODED = [
     "mitmproxy.net.http.validate:validate_headers", "mitmproxy.net.http.validate:parse_content_length",
     "mitmproxy.net.http.validate:parse_transfer_encoding", "mitmproxy.net.http.http1.read:expected_http_body_size",
@@ -213,23 +222,26 @@ def _opts():
     return _E2E_OPTS
 
 
-# raw header lines (no terminating CRLF)
+# raw header lines (no terminating CRLF).  The quick tier uses a prefix of each menu, so that selector
+# values mean the same in both tiers (replay files do not record the tier).
 REQ_LINES = [
-    b"Content-Length: 3", b"content-length: 3", b"Content-Length: 03", b"Content-Length: +3", b"Content-Length: 3, 3",
-    b"Content-Length: 5", b"Content-Length : 3", b"Content-Length:\r\n 3",
-    b"Transfer-Encoding: chunked", b"Transfer-Encoding: gzip, Chunked", b"Transfer-Encoding: chunked, gzip",
-    b"Transfer-Encoding: identity", b"Transfer-Encoding: xchunked", b"Transfer-Encoding:\r\n chunked",
-    b"X-Other: v", b"X-Fold: a\r\n b", b"X-Cr: a\rTransfer-Encoding: chunked", b"X-Nul: a\x00b",
-    b"Connection: close", b"Expect: 100-continue",
+    b"Content-Length: 3", b"content-length: 3", b"Content-Length: 3, 3", b"Content-Length: 5", b"Content-Length : 3",
+    b"Transfer-Encoding: chunked", b"Transfer-Encoding: gzip, Chunked", b"Transfer-Encoding: chunked, gzip", b"Transfer-Encoding:\r\n chunked",
+    b"X-Fold: a\r\n b", b"X-Cr: a\rTransfer-Encoding: chunked", b"Connection: close", b"Expect: 100-continue",
+    # thorough only:
+    b"Content-Length: 03", b"Content-Length: +3", b"Content-Length:\r\n 3", b"Transfer-Encoding: identity", b"Transfer-Encoding: xchunked",
+    b"X-Other: v", b"X-Nul: a\x00b",
 ]
-REQ_LINES_QUICK = [0, 1, 4, 5, 6, 8, 9, 10, 13, 15, 16, 18, 19]
+N_REQ_LINES_QUICK = 13
 
 RESP_LINES = [
-    b"Content-Length: 3", b"Content-Length: 03", b"Content-Length: 3, 3", b"Content-Length: 5", b"Content-Length : 3",
-    b"Transfer-Encoding: chunked", b"Transfer-Encoding: gzip, chunked", b"Transfer-Encoding: gzip", b"Transfer-Encoding: chunked, gzip",
-    b"Transfer-Encoding: xchunked", b"X-Other: v", b"X-Fold: a\r\n b", b"X-Cr: a\rContent-Length: 0", b"Connection: close",
+    b"Content-Length: 3", b"Content-Length: 5", b"Transfer-Encoding: chunked", b"Transfer-Encoding: gzip",
+    b"X-Fold: a\r\n b", b"X-Cr: a\rContent-Length: 0", b"Connection: close",
+    # thorough only:
+    b"Content-Length: 03", b"Content-Length: 3, 3", b"Content-Length : 3", b"Transfer-Encoding: gzip, chunked", b"Transfer-Encoding: chunked, gzip",
+    b"Transfer-Encoding: xchunked", b"X-Other: v",
 ]
-RESP_LINES_QUICK = [0, 3, 5, 7, 11, 12, 13]
+N_RESP_LINES_QUICK = 7
 
 BODY_KINDS_QUICK = ["none", "raw3", "chunk1", "chunk-split", "chunk-trailer", "raw5"]
 BODY_KINDS = BODY_KINDS_QUICK + ["chunk-ext", "chunk-hex", "chunk-barelf", "chunk-badterm", "chunk-lead0", "chunk3"]
@@ -440,7 +452,7 @@ def _is_error_page(m):
     return m.status >= 400 and any(n == b"server" and v.startswith(b"mitmproxy") for n, v in hl) and (b"connection", b"close") in hl
 
 
-def _judge(X, side, exchange, choose_edit, ctx_tag=""):
+def _judge(X, side, exchange, choose_edit, ctx_tag="", suffix=""):
     """run the exchange with the solver-chosen edit; if it fails after an edit, re-run the same exchange
     without the edit to class the violation (key) by its cause: the input alone, or the addon edit"""
     labels = set()
@@ -475,11 +487,11 @@ def _judge(X, side, exchange, choose_edit, ctx_tag=""):
             except _Fail as f0:
                 by_edit = f0.check != fail.check
         if by_edit:
-            key = f"C01/e2e/{side}/after-edit/{edited[0]}"
+            key = f"C01/e2e/{side}/after-edit/{edited[0]}{suffix}"
         elif ctx_tag:
             key = f"C01/e2e/{side}/{ctx_tag}"
         else:
-            key = f"C01/e2e/{side}/{fail.check}"
+            key = f"C01/e2e/{side}/{fail.check}{suffix}"
     X.fail(key, fail.msg)
 
 
@@ -487,7 +499,7 @@ def h_e2e_request(X, K, tier):
     """client stream = solver-built request [+ pipelined marker request]; server answers every forwarded
     request with a fixed 200.  Everything written to the server must parse (reference) to exactly the
     flows seen in the `request` hook, after addon edits."""
-    menu = REQ_LINES if tier != "quick" else [REQ_LINES[i] for i in REQ_LINES_QUICK]
+    menu = REQ_LINES if tier != "quick" else REQ_LINES[:N_REQ_LINES_QUICK]
     method = X.choose("method", [b"POST", b"GET"] if tier != "quick" else [b"POST"])
     version = X.choose("version", [b"HTTP/1.1", b"HTTP/1.0"])
     lines = [b"Host: example.com"]
@@ -596,7 +608,7 @@ def h_e2e_response(X, K, tier):
     the client must parse (reference, in the context of the request methods) to exactly the responses
     seen in the `response` hook after addon edits; ambiguous responses must not be relayed."""
     quick = tier == "quick"
-    menu = RESP_LINES if not quick else [RESP_LINES[i] for i in RESP_LINES_QUICK]
+    menu = RESP_LINES if not quick else RESP_LINES[:N_RESP_LINES_QUICK]
     method = X.choose("method", [b"GET", b"HEAD"])
     version = X.choose("version", [b"HTTP/1.1"] if quick else [b"HTTP/1.1", b"HTTP/1.0"])
     status = X.choose("status", [200, 204, 304, 100])
@@ -609,14 +621,14 @@ def h_e2e_response(X, K, tier):
     edits = RESP_EDITS[:4] if quick else RESP_EDITS
     # an interim (1xx) status is a class of its own: mitmproxy records it as the flow's final response
     _judge(X, "response", lambda edit_of, labels: _resp_exchange(method, status, head + body, head, pipelined, edit_of, labels),
-           lambda: X.choose("edit", edits), ctx_tag="interim-1xx-recorded-as-final" if 100 <= status <= 199 else "")
+           lambda: X.choose("edit", edits), ctx_tag="interim-1xx-recorded-as-final" if 100 <= status <= 199 else "", suffix=f"/{method.decode()}-{status}")
 
 
 def obligations(tier):
     k = 2 if tier == "quick" else 3
     ke = 2  # header slots besides Host (the thorough tier widens menus, methods, versions and body encodings instead)
-    nreq = len(REQ_LINES_QUICK) if tier == "quick" else len(REQ_LINES)
-    nresp = len(RESP_LINES_QUICK) if tier == "quick" else len(RESP_LINES)
+    nreq = N_REQ_LINES_QUICK if tier == "quick" else len(REQ_LINES)
+    nresp = N_RESP_LINES_QUICK if tier == "quick" else len(RESP_LINES)
     return [
         Smt("regex-languages", _build_regex_queries, bounds="all strings (unbounded length) over bytes/unicode without CR/LF; z3 regex inclusion both directions",
             encoded=ENCODED[:3]),
